@@ -135,7 +135,7 @@ func init() {
 		ID:    "C08",
 		Level: "model_checking",
 		Rule: "complete enumeration: all 2^32 (a,b) for Times and Div, all 65536 for Inverse, all 65536 bases x all 65535 exponent residues for Pow plus " +
-			"exponent classes up to 2^32-1, Poly64 Times/Div on all pairs of degree<12 and all (<=3-term)x(<=2-term) polynomials of degree<64; " +
+			"exponent classes up to 2^32-1, call histories (every ordered pair of 15 boundary exponents on each of 24 bases, alone and alternating with a second base; every ordered pair of 120 (operation, operands) calls of Times/Div/Inverse/Pow over an 8-symbol alphabet, each answer against the reference), Poly64 Times/Div on all pairs of degree<12 and all (<=3-term)x(<=2-term) polynomials of degree<64; " +
 			"a case is a chunk of operand space; non-trivial = chunk containing non-zero operands; states = operand tuples, transitions = gopar operations",
 		Assumptions: []string{
 			"reference = ref/gf16 (shift-and-xor multiplication modulo 0x1100B, own base-2 tables self-checked against the slow product) and a 128-bit carry-less product",
